@@ -719,7 +719,9 @@ UNSAFE = [
     ("rawlock_raw_unlock_read_collection", "use happylock::lockable::RawLock; let m = LockCollection::new((RwLock::new(1),)); let g = m.read(ThreadKey::get().unwrap());", "m.raw_unlock_read();", "drop(g);"),
 ]
 for name, setup, bad, twin in UNSAFE:
-    route("C15", "unsafe_only_" + name, ["E0133"], """
+    # an entry point that bypasses the key (C14) / the hold (C15) must stay `unsafe`
+    for prop_ in ("C15", "C14"):
+        route(prop_, "unsafe_only_" + name, ["E0133"], """
 fn main() {
     %s
     @@
@@ -1127,6 +1129,18 @@ struct ProbeIntoIter<T>(PhantomData<T>);
 trait FallbackIntoIter { fn is_into_iter(&self) -> bool { false } }
 impl<T> FallbackIntoIter for ProbeIntoIter<T> {}
 impl<T: IntoIterator> ProbeIntoIter<T> { fn is_into_iter(&self) -> bool { true } }
+struct ProbeFromIter<T, I>(PhantomData<(T, I)>);
+trait FallbackFromIter { fn is_from_iter(&self) -> bool { false } }
+impl<T, I> FallbackFromIter for ProbeFromIter<T, I> {}
+impl<I, T: FromIterator<I>> ProbeFromIter<T, I> { fn is_from_iter(&self) -> bool { true } }
+struct ProbeExtend<T, I>(PhantomData<(T, I)>);
+trait FallbackExtend { fn is_extend(&self) -> bool { false } }
+impl<T, I> FallbackExtend for ProbeExtend<T, I> {}
+impl<I, T: Extend<I>> ProbeExtend<T, I> { fn is_extend(&self) -> bool { true } }
+struct ProbeFrom<T, U>(PhantomData<(T, U)>);
+trait FallbackFrom { fn is_from(&self) -> bool { false } }
+impl<T, U> FallbackFrom for ProbeFrom<T, U> {}
+impl<U, T: From<U>> ProbeFrom<T, U> { fn is_from(&self) -> bool { true } }
 struct ProbeCopy<T>(PhantomData<T>);
 trait FallbackCopy { fn is_copy(&self) -> bool { false } }
 impl<T> FallbackCopy for ProbeCopy<T> {}
@@ -1227,6 +1241,18 @@ fn main() {
     for t in ["happylock::ThreadKey", MG, RG, WG, LG, LGA, LGB, LGR, PG]:
         lines.append('    println!("INTOITER|%s|false|{}", ProbeIntoIter::<%s>(PhantomData).is_into_iter());' % (t, t))
         lines.append('    println!("COPY|%s|false|{}", ProbeCopy::<%s>(PhantomData).is_copy());' % (t, t))
+    # constructors that skip the duplicate check exist only for inputs that own their locks:
+    # Default / FromIterator / Extend / From over a container of *references* must not exist
+    RM = "&'static %s" % M
+    VR = "Vec<%s>" % RM
+    for coll in ("BoxedLockCollection", "OwnedLockCollection", "RetryingLockCollection"):
+        t = C + coll + "<%s>" % VR
+        lines.append('    println!("CTOR|%s: Default|false|{}", ProbeDefault::<%s>(PhantomData).is_default());' % (t, t))
+        lines.append('    println!("CTOR|%s: FromIterator<&Mutex>|false|{}", ProbeFromIter::<%s, %s>(PhantomData).is_from_iter());' % (t, t, RM))
+        lines.append('    println!("CTOR|%s: Extend<&Mutex>|false|{}", ProbeExtend::<%s, %s>(PhantomData).is_extend());' % (t, t, RM))
+        lines.append('    println!("CTOR|%s: From<Vec<&Mutex>>|false|{}", ProbeFrom::<%s, %s>(PhantomData).is_from());' % (t, t, VR))
+        t2 = C + coll + "<Vec<%s>>" % M
+        lines.append('    println!("CTOR|%s: Default|true|{}", ProbeDefault::<%s>(PhantomData).is_default());' % (t2, t2))
     # a guard that carries the thread's key must never be Send, whatever the raw lock allows
     for t in ["happylock::mutex::MutexGuard<'static, i32, SendRawMutex>",
               "happylock::rwlock::RwLockReadGuard<'static, i32, SendRawRwLock>",
